@@ -18,7 +18,7 @@ PROPS = {
             'alpha lexer std calls under assumed specs (checked against real std by an exhaustive/random scratch program, not on every run): char::{is_ascii_hexdigit,is_ascii_digit,is_digit,is_ascii_graphic,is_ascii,from_u32,encode_utf8,to_string}, {u8,u32,u128}::from_str_radix on all-digit strings, str::parse::<u128>, String::{len,as_bytes}, str::len'], 'trusted': []},
     'C11': {'units': ['U-VT', 'U-ALIGN', 'U-EXTERN'], 'assumptions': ['permutation invariance (Compiler sorting, feature-gated) and cycle detection (found_container*) are not under contract',
             'align_struct preconditions (struct or word with sized members; layout fits usize) are the typer\'s obligation, not verified'], 'trusted': []},
-    'C08': {'units': ['U-VT', 'U-MUT', 'U-MUTW', 'U-FCALL'], 'assumptions': ['the whole-program non-interference consequence is not under contract; constant initialisers are not walked by mutability.rs (relies on constness.rs, not under contract)'], 'trusted': []},
+    'C08': {'units': ['U-VT', 'U-MUT', 'U-MUTW', 'U-FCALL', 'U-CONST'], 'assumptions': ['the whole-program non-interference consequence is not under contract; constant initialisers are not walked by mutability.rs; it relies on constness.rs rejecting every address, access path and call in a constant initialiser, which is proved (U-CONST); ReferenceStep::analyze of constness.rs has a latent unreachable!() that is dead code (every reference with steps is rejected before it runs): it carries a caller precondition that holds vacuously at its only call site'], 'trusted': []},
     'C12': {'units': ['U-EXPORT', 'U-KEYOFF'], 'assumptions': ['expand (import fix-point), Compiler multi-module state and split-equivalence are not under contract'], 'trusted': []},
     'C13': {'units': ['U-CODE', 'U-LEXD', 'U-LEXA', 'U-LOC'], 'assumptions': ['rendering (ariadne), parser-side span combination beyond Location::combined_with, and run-to-run determinism (HashMap/HashSet iteration) are not under contract', 'alpha lexer spans: as under C14 (trusted model of str::split_inclusive / strip_suffix)'], 'trusted': []},
     'C14': {'units': ['U-LEXD', 'U-LEXA'], 'assumptions': ['the headline equivalence of the two lexers is not stated as one theorem: each lexer is verified against its own declarative token/span/value spec',
